@@ -244,6 +244,12 @@ func (e *env) runForced(progs []prog, sched []int, debug bool) result {
 				"swamp.destroy.cancelled", "swamp.flush.begin", "swamp.flush.wrote", "chronicler.write.begin", "gateway.set.summoned":
 				continue
 			default:
+				// instrumentation points of other properties (claims, events, flush windows, ...) are
+				// not part of the summon/close/destroy protocol; only an unrecognised summon.* point
+				// means this harness is out of date with hydra.go
+				if !strings.HasPrefix(ev.Site, "summon.") {
+					continue
+				}
 				res.unknownEv = append(res.unknownEv, ev.Site)
 				continue
 			}
